@@ -85,7 +85,11 @@ func genSrvValue(rng *rand.Rand) srvValue {
 	case 7: // the hour clamp: MaxInt64/hour = 2562047
 		return srvValue{strconv.Itoa(2562047+rng.Intn(5)-2) + "H", "valid-hour-clamp"}
 	case 8:
-		return srvValue{strconv.Itoa(vlib.Pick(rng, 1, 10, 100, 1000, 100000, 10000000, 99999999)+rng.Intn(3)-1) + u, "valid-pow10"}
+		n := vlib.Pick(rng, 1, 10, 100, 1000, 100000, 10000000, 99999999) + rng.Intn(3) - 1
+		if n > 99999999 {
+			return srvValue{strconv.Itoa(n) + u, "bad-too-long"}
+		}
+		return srvValue{strconv.Itoa(n) + u, "valid-pow10"}
 	case 9:
 		return srvValue{digits(rng, 8) + "H", "valid-8digit-hours"}
 	case 10:
